@@ -60,3 +60,27 @@ pub fn main(_a: &vlib::Args) {
     t("string remove_range(idx>len,0)", || { let mut s = StaticString::<4>::from_bytes(b"a").unwrap(); (s.remove_range(2, 0), s.remove_range(1, 0), s.remove_range(0, 2)) });
     t("string truncate > len", || { let mut s = StaticString::<4>::from_bytes(b"a").unwrap(); s.truncate(3); s.len() });
 }
+
+/// Parameter extraction for CSlotMapImpl.tla (DESIGN.md 3.3): two details of the free-list code are
+/// read off the behaviour of the real SlotMap.
+pub fn slotprobe() {
+    // FixHead: does claim_index move the list head when it unlinks the head?
+    let fix_head = catch_unwind(|| {
+        let mut m = SlotMap::<u32>::new(2);
+        m.insert_at(SlotMapKey::new(0), 1);
+        m.next_free_key().map(|k| k.value()) != Some(0)
+    });
+    // ClearLinks: are the links of a key that was handed out reset? (the stale `next` of key 1 would cut
+    // key 2 out of the list bookkeeping and let a full map hand out key 2 again)
+    let clear_links = catch_unwind(|| {
+        let mut m = SlotMap::<u32>::new(3);
+        m.insert(1);
+        m.insert(2);
+        m.remove(SlotMapKey::new(0));
+        m.insert_at(SlotMapKey::new(1), 3);
+        m.insert_at(SlotMapKey::new(2), 4);
+        m.insert(5);
+        m.insert(6).is_none()
+    });
+    println!("{}", vlib::json!({"fix_head": fix_head.unwrap_or(false), "clear_links": clear_links.unwrap_or(false)}));
+}
